@@ -21,6 +21,7 @@ def run(prog, tier, extra=None):
     R2 = res.rule("C05.strictly-longer", "is_new_chain_the_longest_chain accepts only a strictly longer chain with at least the burn fee", floor=2)
     R4 = res.rule("C05.density-anchor", "the golden-ticket density is evaluated at the tip of the candidate chain", floor=1)
     R5 = res.rule("C05.density-window", "the density helper looks at the candidate and exactly DENOMINATOR - 1 ancestors", floor=1)
+    R6 = res.rule("C05.density-verdict", "no density verdict `true` is handed up without the ancestor walk having run (walker and every wrapper between it and the gate)", floor=2)
     R3 = res.rule("C05.density-constants", "the density rule is computed from MIN_GOLDEN_TICKETS_NUMERATOR/DENOMINATOR", floor=2)
 
     # R1a
@@ -335,6 +336,46 @@ def run(prog, tier, extra=None):
                             "outside the six-block window is counted" % (bound, bound + 1, D), b.loc(h)))
         else:
             res.sample({"rule": R5, "loop": b.loc(h), "ancestors": bound, "window": bound + 1})
+
+    # R6: the verdict the gate sees is the walker's. In the walker no path returns a possibly-true value without entering the ancestor
+    # walk; in every bool wrapper between the gate and the walker no path does so without the call that leads to the walker
+    # ("a parent we already hold was checked before" shortcuts skip the rule for exactly the blocks it is for).
+    chain = {}          # body path -> blocks that stand for "the walk happened"
+    for b in walkers:
+        walk_calls = [bb for bb, t in b.calls() if (call_name(t) or "").rsplit("::", 1)[-1] in ("call", "call_mut", "call_once") and "Fn" in (call_name(t) or "")]
+        if walk_calls:
+            h = b.innermost_loop_containing(walk_calls[:1])
+            if h is not None:
+                chain[b.path] = {h}
+    for b in gt:
+        if b.path not in chain:
+            pts = {bb for bb, t in b.calls() if (t.get("res") or t.get("callee") or "") in chain}
+            if pts:
+                chain[b.path] = pts
+    def _generic(pth):
+        return pth.split("::<", 1)[0]
+    for _ in range(3):
+        names = {_generic(c) for c in chain}
+        for b in prog.all_bodies():
+            if b.is_promoted or b.path in chain or "::tests::" in b.path or "/test/" in b.file or not b.path.startswith("saito_"):
+                continue
+            if b.ty(0)["s"] != "bool":
+                continue
+            pts = {bb for bb, t in b.calls() if _generic(t.get("res") or t.get("callee") or "") in names}
+            if pts:
+                chain[b.path] = pts
+    for pth, pts in sorted(chain.items()):
+        b = prog.bodies[pth]
+        res.instance(R6)
+        f6 = Explorer(b).explore(0, blocked=pts, accept=gate.make_accept(b, return_true=True))
+        name = pth.replace(CORE, "").split("::<", 1)[0]
+        if f6:
+            kind, path = sorted(f6.items())[0]
+            res.add(Finding(R6, "C05.density-verdict|%s" % name, "%s can return true without %s: a candidate chain is accepted without its golden-ticket "
+                            "window having been counted" % (name, "walking the ancestors" if pth in [w.path for w in walkers] and any(b.term(x)["k"] != "call" or x not in dict(b.calls()) for x in pts) else "calling the density walker"),
+                            b.loc(path[-1]), {"path": describe_path(b, path)}))
+        else:
+            res.sample({"rule": R6, "body": name, "walk_points": [b.loc(x) for x in sorted(pts)], "verdict": "every possibly-true return is behind the walk"})
 
     # fork choice finds the shared ancestor by walking back to the first block flagged in_longest_chain: the flags must follow
     # every wind/unwind step (C03.lockstep, cross-listed), or a branch that once lost the tip can never win it back
